@@ -11,6 +11,7 @@ import (
 	"net"
 	"os"
 	"path/filepath"
+	"sort"
 	"strings"
 	"time"
 
@@ -24,7 +25,7 @@ import (
 )
 
 type Op struct {
-	K     string `json:"k"` // put set rm pkt sub rep snap
+	K     string `json:"k"` // put set rm pkt sub rep snap | poladd polrm polget poldef pollist apply
 	D     int    `json:"d"` // 0 egress, 1 ingress
 	Key   []byte `json:"key,omitempty"`
 	Val   []byte `json:"val,omitempty"`
@@ -39,10 +40,12 @@ type Op struct {
 	Now   uint64 `json:"now,omitempty"`
 	Gap   uint64 `json:"gap,omitempty"`
 	N     uint64 `json:"n,omitempty"`
+	Name  string `json:"name,omitempty"` // plan name (poladd polrm polget apply)
 }
 type Case struct {
-	Mode string `json:"mode"` // native | kernel
-	Ops  []Op   `json:"ops"`
+	Mode string   `json:"mode"` // native | kernel
+	Ops  []Op     `json:"ops"`
+	Tags []string `json:"tags,omitempty"` // generator's description of the shape (evidence only)
 }
 
 var mapName = [2]string{"qos_egress", "qos_ingress"}
@@ -160,6 +163,9 @@ func monoNow() uint64 {
 // run executes one case on the real code and returns its Coq term (ops with observed outputs).
 func (e *env) run(c Case) vh.Case {
 	tags := map[string]bool{"mode:" + c.Mode: true}
+	for _, t := range c.Tags {
+		tags[t] = true
+	}
 	must(e.nat.Clear(mapName[0]))
 	must(e.nat.Clear(mapName[1]))
 	var mgr *qos.Manager
@@ -227,6 +233,58 @@ func (e *env) run(c Case) vh.Case {
 			} else {
 				tr = append(tr, fmt.Sprintf("(SetQoS %s %s %s %s %s %d, %s)", vh.Bool(o.Pol), bs(o.IP), num(o.Down), num(o.Up), num(uint64(o.Burst)), o.Prio, out))
 			}
+		case "poladd", "polrm", "polget", "poldef", "pollist":
+			// the real radius.PolicyManager that the qos.Manager of this case resolves plan names with
+			tags["op:"+o.K] = true
+			switch o.K {
+			case "poladd":
+				err := pm.AddPolicy(&radius.QoSPolicy{Name: o.Name, DownloadBPS: o.Down, UploadBPS: o.Up, BurstSize: o.Burst, Priority: o.Prio})
+				out := "OUnit"
+				if err != nil {
+					out = "OErr"
+					tags["pol:add-refused"] = true
+				}
+				tr = append(tr, fmt.Sprintf("(PolAdd %s %s %s %s %d, %s)", bs([]byte(o.Name)), num(o.Down), num(o.Up), num(uint64(o.Burst)), o.Prio, out))
+			case "polrm":
+				pm.RemovePolicy(o.Name)
+				tr = append(tr, fmt.Sprintf("(PolRemove %s, OUnit)", bs([]byte(o.Name))))
+			case "polget":
+				out := "OPol None"
+				if p := pm.GetPolicy(o.Name); p != nil {
+					out = fmt.Sprintf("OPol (Some (%s, %s, %s, %d))", num(p.DownloadBPS), num(p.UploadBPS), num(uint64(p.BurstSize)), p.Priority)
+				} else {
+					tags["pol:get-none"] = true
+				}
+				tr = append(tr, fmt.Sprintf("(PolGet %s, %s)", bs([]byte(o.Name)), out))
+			case "poldef":
+				pm.LoadDefaultPolicies()
+				tr = append(tr, "(PolLoadDefaults, OUnit)")
+			case "pollist":
+				names := pm.ListPolicies()
+				sort.Strings(names)
+				var it []string
+				for _, n := range names {
+					it = append(it, bs([]byte(n)))
+				}
+				tr = append(tr, fmt.Sprintf("(PolList, ONames %s)", vh.List(it)))
+			}
+		case "apply":
+			tags["op:apply"] = true
+			if !kmode {
+				e.syncNativeToKernel()
+			}
+			var ip net.IP
+			if o.IP != nil {
+				ip = net.IP(o.IP)
+			}
+			err := mgr.SetSubscriberPolicy(ip, o.Name)
+			e.syncKernelToNative()
+			out := "OUnit"
+			if err != nil {
+				out = "OErr"
+				tags["apply:error"] = true
+			}
+			tr = append(tr, fmt.Sprintf("(ApplyPol %s %s, %s)", bs(o.IP), bs([]byte(o.Name)), out))
 		case "pkt", "sub":
 			frame := o.Frame
 			if o.K == "sub" {
@@ -597,7 +655,8 @@ Print R.
 
 func hasMgr(c Case) bool {
 	for _, o := range c.Ops {
-		if o.K == "set" || o.K == "rm" {
+		switch o.K {
+		case "set", "rm", "apply", "poladd", "polrm", "polget", "poldef", "pollist":
 			return true
 		}
 	}
@@ -665,9 +724,11 @@ func main() {
 	}
 	r := vh.NewRng(cfg.Seed)
 	nTB, nExact, nStarve, nMgr, nKern, maxPk := 90, 40, 3, 60, 30, 30
+	nPol, nPolKern, polMaxN := 32, 12, uint64(700)
 	starveN := uint64(3000)
 	if cfg.Thorough() {
 		nTB, nExact, nStarve, nMgr, nKern, maxPk = 800, 300, 12, 500, 250, 60
+		nPol, nPolKern, polMaxN = 400, 100, 700
 		starveN = 20000
 	}
 	var tbs, exact, starve, mgrs, kern []Case
@@ -686,7 +747,16 @@ func main() {
 	for i := 0; i < nKern; i++ {
 		kern = append(kern, genMgr(r.Fork(), "kernel", maxPk/3))
 	}
+	// drawn after every older stream so that those keep the cases they had for a given seed
+	pols := builtinCases(r)
+	for i := 0; i < nPol; i++ {
+		pols = append(pols, genPolicy(r.Fork(), "native", polMaxN))
+	}
+	for i := 0; i < nPolKern; i++ {
+		pols = append(pols, genPolicy(r.Fork(), "kernel", polMaxN))
+	}
 	start := time.Now()
+	vh.Emit(cfg, "policy", header, footer, runAll(pols), extra())
 	vh.Emit(cfg, "tb", header, footer, runAll(tbs), extra())
 	vh.Emit(cfg, "exact", header, footer, runAll(exact), map[string]interface{}{"guarded": "rate multiple of 8, gap*(rate/8) multiple of 10^9, product < 2^64"})
 	vh.Emit(cfg, "starve", header, footer, runAll(starve), nil)
